@@ -1,4 +1,13 @@
 //go:build verif
 
-// Package decode: see DESIGN.md (E5).
+// Package decode is the bounded exhaustive check of C01, parts (a)-(c) of DESIGN.md section 5:
+// decoding untrusted octets never panics, hangs, over-reads or depends on octets beyond the input.
+//
+//	corpus.go  corpus G, built octet by octet from DESIGN Appendix C
+//	spaces.go  the enumerated spaces; case (space, index) is regenerated identically everywhere
+//	judge.go   decoding one case from the four buffer backings, the oracle, reproducing tests
+//	worker.go  the worker processes (bulk enumeration, single case) and the in-process hang monitor
+//	proc.go    child process plumbing
+//	check.go   the parent: scheduling, watchdog, confirmation of hangs, aggregation, replay
+//	fixes/     one minimal repair per defect found on the pinned tree (git -C /repo apply)
 package decode
